@@ -187,6 +187,35 @@ def h_plain(lead: str, colon: bool, rest: str, lang: str, defaultns: int, restle
     return check_idempotent(lang, title, defaultns)
 
 
+def two_word_ns(lang):
+    for n, i in ns_names(lang):
+        if " " in n:
+            return n, i
+    return None, None
+
+
+def h_runs(run1: str, run2: str, lang: str, maxlen: int):
+    """Separator runs mixing spaces and underscores inside the remainder and inside a two-word namespace name."""
+    assume(1 <= len(run1) <= maxlen and 1 <= len(run2) <= maxlen)
+    assume(in_alphabet(run1, " _") and in_alphabet(run2, " _"))
+    run1, run2 = pinned(run1), pinned(run2)
+    h = handler(lang)
+    name, nsid = two_word_ns(lang)
+    if name is None:
+        title = "a" + run1 + "b" + run2 + "c"
+        want = [0, "A b c", "A b c"] if h.siteinfo["general"].get("case") == "first-letter" else [0, "a b c", "a b c"]
+    else:
+        first, second = name.split(" ", 1)
+        title = first + run1 + second + ":a" + run2 + "b"
+        star = h.siteinfo["namespaces"][str(nsid)]["*"]
+        rest = "A b" if h.siteinfo["general"].get("case") == "first-letter" else "a b"
+        want = [nsid, rest, star + ":" + rest]
+    ns, partial, full = h.splitname(title, 0)
+    if [ns, partial, full] != want:
+        return {"sig": "spelling-not-canonical", "lang": lang, "title": title, "defaultns": 0, "got": [ns, partial, full], "expected": want}
+    return check_idempotent(lang, title, 0)
+
+
 def twin_ns(title: str, lang: str):
     """Reachability: a symbolic title does resolve to a non-main namespace."""
     assume(len(title) <= 2)
@@ -222,6 +251,8 @@ def build(tier: str) -> CheckSpec:
                               {"maxlen": free_len, "lang": lang, "defaultns": d, "alphabet": alphabet}, timeout=tmo, per_path_timeout=60, group=f"free-{lang}"))
             cubes.append(Cube(f"plain[{lang},ns{d}]", h_plain, {"lead": str, "colon": bool, "rest": str},
                               {"lang": lang, "defaultns": d, "restlen": restlen}, timeout=tmo, per_path_timeout=60, group=f"plain-{lang}"))
+        cubes.append(Cube(f"runs[{lang}]", h_runs, {"run1": str, "run2": str}, {"lang": lang, "maxlen": 3 if tier == "quick" else 4},
+                          timeout=tmo, per_path_timeout=60, group=f"runs-{lang}"))
         n = len(ns_names(lang))
         for lo in range(0, n, chunk):
             cubes.append(Cube(f"struct[{lang}] names {lo}..{min(lo+chunk, n)-1}", h_struct,
@@ -237,7 +268,7 @@ def build(tier: str) -> CheckSpec:
                    nshandling.NsHandler.get_fqname],
         bounds={"sites": langs, "all_bundled_sites": all_sites, "free_title_max_len": free_len, "free_alphabet": alphabet,
                 "structured": "lead(<=1) ':'? NAMESPACE(lower | Capitalised | UPPER; every local/canonical/alias name of the site) sep(<=1) ':' mid(<=1) rest(<=%d)" % restlen,
-                "separator_alphabet": sep, "rest_alphabet": REST_ALPHABET, "default_namespaces": defaults},
+                "separator_alphabet": sep, "separator runs": "two runs of 1..%d characters over space/underscore inside the remainder and inside a two-word namespace name" % (3 if tier == "quick" else 4), "rest_alphabet": REST_ALPHABET, "default_namespaces": defaults},
         stubs=["none (siteinfo JSON files are read as configuration data)"],
         assumptions=["a page-title spelling has at most one leading colon, a remainder that does not start with a colon, and at least one letter/digit",
                      "idempotence is judged by re-normalizing the full name with default namespace 0 (a main-namespace full name carries no prefix)",
